@@ -266,11 +266,29 @@ def G1_config_flow(ctx):
                 if not (c.endswith('Vec::with_capacity') or c.endswith('::into_iter') or 'thread::scope' in c):
                     bad.append(e)
     cls = ctx.facts.closures_under(f.name)
+    # which captures of which closure carry the worker count (argument 2), whatever it is called
+    carries = collections.defaultdict(set)
+    for p in feasible(f.paths()):
+        for e in p.events:
+            for t in list(e.d.get('args', ())) + [e.d.get('value', ('unk', ''))]:
+                if not isinstance(t, tuple):
+                    continue
+                for s_ in subterms(t):
+                    if s_[0] == 'closure' and len(s_) > 3:
+                        names = s_[3].split('\x1f') if s_[3] else []
+                        for i, cap in enumerate(s_[2]):
+                            if strip(cap) == ('arg', 2) and i < len(names):
+                                carries[s_[1]].add(names[i])
     for c in cls:
         cf = ctx.fn(c)
+        mine = {cf.upvar_names.get('upvar:' + n, n) for n in carries.get(c['fn'], ())}
+        # closures nested in a carrying closure inherit the name
+        for outer, ns in carries.items():
+            if c['fn'].startswith(outer + '::'):
+                mine |= {cf.upvar_names.get('upvar:' + n, n) for n in ns} | set(ns)
         for p in live(cf.paths()):
             for e in p.events:
-                if e.kind == 'call' and any(a[0] == 'upvar' and 'concurrency_level' in a[1] for a in e.d['args']):
+                if e.kind == 'call' and any(a[0] == 'upvar' and a[1] in mine for a in e.d['args']):
                     cn = norm_callee(e.d['callee'])
                     if not (cn.endswith('Vec::with_capacity') or cn.endswith('::into_iter') or cn.endswith('::next')):
                         bad.append(e)
